@@ -361,6 +361,13 @@ fn input_for_unpadded(prop: &str, tier: Tier, seed: u64, idx: u64, sub: u64) -> 
             if n < a + a * a + 600 {
                 return input_for_unpadded("C07-lex", tier, seed, idx, sub);
             }
+            if rng.below(25) == 0 {
+                // accepted grammars under the hostile naming of C05 (helper names, numeric tails ...):
+                // the last stage of generate must be total too
+                if let Some(c) = super::compile::c05_case(seed ^ 0x77, 1_000_000 + n) {
+                    return ("hostile-names-model".into(), c.1);
+                }
+            }
             let (c, t) = input_for(which, tier, seed, idx, sub);
             (c, t)
         }
